@@ -55,6 +55,7 @@ class Query:
     order_by: list[Order] = dataclasses.field(default_factory=list)
     limit: int | None = None
     offset: int | None = None
+    is_summarized: bool = False
 
 
 class SqlImpl(TableImpl):
@@ -434,7 +435,8 @@ class SqlImpl(TableImpl):
             query.select += nd.uuids
 
         elif isinstance(nd, verbs.Filter):
-            if query.group_by:
+            if query.group_by or query.is_summarized:
+                # also after a `summarize` without grouping the predicates act on the aggregated row
                 query.having.extend(nd.predicates)
             else:
                 query.where.extend(nd.predicates)
@@ -454,6 +456,7 @@ class SqlImpl(TableImpl):
             ] + nd.uuids
             query.partition_by = []
             query.order_by.clear()
+            query.is_summarized = True
 
         elif isinstance(nd, verbs.SliceHead):
             if query.limit is None:
